@@ -183,3 +183,12 @@ func breakBeforeHold(cs Case) bool {
 	}
 	return false
 }
+
+func hasSplit(cs Case) bool {
+	for _, a := range cs.Chain {
+		if fmt.Sprint(a["type"]) == "split" {
+			return true
+		}
+	}
+	return false
+}
